@@ -37,7 +37,13 @@ Inductive label :=
 | LAddPriorCtrl (x : Z)            (* MQ.AddPriorCtrl *)
 | LClose
 | LTryClose                        (* MQ.TryClose *)
-| LTryPop.                         (* SyncQueue.TryPop *)
+| LTryPop                          (* SyncQueue.TryPop *)
+| LTryClear.                       (* MQ.TryClear: true exactly on a closed and drained queue (then it closes clearChan);
+                                      "closed and empty" can never be left again, so the answer does not depend on
+                                      the cleared flag and the queue state the consumers see is untouched *)
+(* AddReqAnyway / AddAnyway / AddCtrlAnyway are retry loops (sleep, try again) around AddReq / Add / AddCtrl: every
+   attempt is an LAdd / LAddCtrl; an attempt answered "full" leaves the state as it is (full_add_is_noop in
+   C13_CondMore.v), so a trace lists only the last attempt of such a call *)
 
 Definition getc (t : nat) (l : list cst) : cst := nth t l Idle.
 Fixpoint upd (t : nat) (v : cst) (l : list cst) : list cst :=
@@ -135,6 +141,9 @@ Definition step (c : cfg) (s : st) (l : label) : option (st * out) :=
            | x :: r => Some (note_taken (set_lists s (ctrl s) r) x, OTry (Some (RItem x)))
            | [] => if closed s then Some (s, OTry (Some RClosed)) else Some (s, OTry None)
            end
+  | LTryClear =>
+      if negb (is_mq k) then None
+      else Some (s, OBool (closed s && match ctrl s, req s with [], [] => true | _, _ => false end))
   end.
 
 Fixpoint run (c : cfg) (s : st) (ls : list label) : option st :=
@@ -167,7 +176,9 @@ Record obs := { o_ret : list (nat * res);      (* every consumer that has return
                 o_parked : list nat;           (* consumers seen parked in sync.Cond.Wait inside the queue's package *)
                 o_stuck : list nat;            (* consumers neither returned nor parked after the generous bound *)
                 o_len : option nat;            (* SyncQueue.Len() *)
-                o_closed : option bool }.      (* IsClosed() where the type has it *)
+                o_closed : option bool;        (* IsClosed() where the type has it *)
+                o_wc : option bool }.          (* mux.Q / mq.MQ: has the goroutine blocked in WaitClose(ctx) returned?
+                                                  (otherwise it was seen parked in WaitClose's select) *)
 Inductive event := ELab (l : label) (o : out) | EObs (ob : obs).
 
 Definition res_eqb (a b : res) : bool :=
@@ -200,7 +211,8 @@ Definition obs_ok (s : st) (ob : obs) : bool :=
   && nats_eqb (parked_of s) (o_parked ob)
   && is_nil (o_stuck ob)
   && match o_len ob with Some n => Nat.eqb n (length (items s)) | None => true end
-  && match o_closed ob with Some b => Bool.eqb b (closed s) | None => true end.
+  && match o_closed ob with Some b => Bool.eqb b (closed s) | None => true end
+  && match o_wc ob with Some b => Bool.eqb b (closed s) | None => true end.
 
 (* replay: the resolved label sequence is a run of the model, every call returned what the model says, every
    quiescent observation is the model's *)
@@ -241,8 +253,8 @@ Definition good_res (m : mon) (p : nat * res) : bool :=
 (* at a quiescent point:
    - nobody is stuck; every return is an item or "closed" after a close was requested;
    - the items handed out are pairwise distinct and were added (k consumers, k distinct items);
-   - if a consumer is parked then no close was requested and no accepted item is still undelivered
-     (no lost wake-up; close releases everybody) *)
+   - if a consumer is parked then no close was requested, the queue does not report IsClosed, and no accepted item
+     is still undelivered (no lost wake-up; close releases everybody) *)
 Definition mon_obs (k : kind) (m : mon) (ob : obs) : bool :=
   let got := res_items (o_ret ob) ++ m_taken m in
   is_nil (o_stuck ob)
@@ -254,7 +266,10 @@ Definition mon_obs (k : kind) (m : mon) (ob : obs) : bool :=
           && match o_len ob with
              | Some n => Nat.eqb n 0
              | None => Nat.leb (length (m_added m)) (length got)
-             end)).
+             end
+          && match o_closed ob with Some true => false | _ => true end))
+  (* a goroutine blocked in WaitClose returns exactly when a close was requested *)
+  && match o_wc ob with Some b => Bool.eqb b (m_closed m) | None => true end.
 
 Fixpoint monitor (k : kind) (m : mon) (tr : list event) : bool :=
   match tr with
